@@ -35,7 +35,7 @@ fn cmp(u: &Universe, exp: &Value, ok: bool, notes: u64, t: &DTrack) -> Option<(S
         return Some(("notes".into(), json!({"spec": jget(exp, "notes"), "impl": notes})));
     }
     let e = jget(exp, "t");
-    for k in ["id", "cnt", "tag", "st", "obs", "hist", "calls"] {
+    for k in ["id", "cnt", "tag", "st", "obs", "cls", "hist", "calls"] {
         if jget(e, k) != jget(&p, k) {
             return Some((format!("track.{}", k), json!({"spec": e, "impl": p})));
         }
